@@ -312,6 +312,7 @@ def judge(case, val):
 # value classes for witnesses (stable, run-independent)
 # ---------------------------------------------------------------------------
 def vclass_num(x):
+    """Coarse, run-independent class of the written value that failed to come back."""
     if x is None:
         return "gap"
     if isinstance(x, float):
@@ -321,12 +322,8 @@ def vclass_num(x):
             return "zero"
         if FLOAT_NDV / 2 <= abs(x) <= FLOAT_NDV * 2:
             return "near-float-ndv"
-        if abs(x) < 2.2250738585072014e-308:
-            return "subnormal64"
-        if abs(x) < FLOAT_NDV:
-            return "below-float32-normal"
-        if abs(x) > 3.4028234663852886e38:
-            return "beyond-float32"
+        if abs(x) < FLOAT_NDV or abs(x) > 3.4028234663852886e38:
+            return "outside-float32-magnitude"
         if not x.is_integer():
             return "fraction"
     if x == INTEGER_NDV:
@@ -607,7 +604,7 @@ class Exec:
         self.transitions = 0
         self.compared = 0
         self.model = ABSENT  # or NOVALUE / UNKNOWN / judgement dict of the last accepted write
-        self.meta_model = None
+        self.n_refused = 0
         self.ws = None
         self.ent = None
 
@@ -764,6 +761,8 @@ class Exec:
             jd["canonical"] = False
         self.transitions += 1
         raised = None
+        if self.fam == "meta":
+            self.ent = self.owner()
         try:
             if op == "create":
                 self.ent = self.do_create(obj)  # (metadata: obj None = nothing written yet)
@@ -779,7 +778,8 @@ class Exec:
             self.model = NOVALUE
             return None
         if raised:
-            if st == "ok" and jd["canonical"]:
+            self.n_refused += 1
+            if st == "ok" and jd["canonical"] and self.n_refused == 1:  # (in a state no refusal has touched)
                 self.viol.append(("accepted-canonical", self.wit(f"{op}:refused"), {"raised": raised, "value": val}))
             if op == "create":
                 self.model = ABSENT if self.fam != "meta" else NOVALUE
